@@ -189,6 +189,32 @@ add("GreedyBALD", P.GreedyBALD, lambda s, ml=NAN: P.GreedyBALD(missing_label=ml,
 add("GreedyBALD_list", P.GreedyBALD, lambda s, ml=NAN: P.GreedyBALD(missing_label=ml, random_state=s),
     lambda c: dict(ensemble=ens_list(c["classes"], c.get("ml", NAN))), arbitrary_index_ok=True,
     independent=True, perm=True, model_arg="ensemble")
+# committee strategies that draw the committee's predictions from one classifier (sample_proba); the dict is caller-owned
+# and carries no random_state: the draws must come from the strategy's own random state
+_SAMPLE_DICT = {"n_samples": 4}
+
+
+def _pwc_prior(c):
+    # sample_proba needs strictly positive Dirichlet parameters (documented: class_prior > 0)
+    return ParzenWindowClassifier(class_prior=1.0, classes=c["classes"], missing_label=c.get("ml", NAN), random_state=0)
+
+
+add("QBC_KL_sample", P.QueryByCommittee,
+    lambda s, ml=NAN: P.QueryByCommittee(sample_predictions_method_name="sample_proba", sample_predictions_dict=_SAMPLE_DICT,
+                                         missing_label=ml, random_state=s),
+    lambda c: dict(ensemble=_pwc_prior(c)), arbitrary_index_ok=True, model_arg="ensemble")
+add("QBC_VE_sample", P.QueryByCommittee,
+    lambda s, ml=NAN: P.QueryByCommittee(method="vote_entropy", sample_predictions_method_name="sample_proba",
+                                         sample_predictions_dict=_SAMPLE_DICT, missing_label=ml, random_state=s),
+    lambda c: dict(ensemble=_pwc_prior(c)), arbitrary_index_ok=True, model_arg="ensemble")
+add("BatchBALD_sample", P.BatchBALD,
+    lambda s, ml=NAN: P.BatchBALD(sample_predictions_method_name="sample_proba", sample_predictions_dict=_SAMPLE_DICT,
+                                  missing_label=ml, random_state=s),
+    lambda c: dict(ensemble=_pwc_prior(c)), arbitrary_index_ok=True, model_arg="ensemble", nmax=25)
+add("GreedyBALD_sample", P.GreedyBALD,
+    lambda s, ml=NAN: P.GreedyBALD(sample_predictions_method_name="sample_proba", sample_predictions_dict=_SAMPLE_DICT,
+                                   missing_label=ml, random_state=s),
+    lambda c: dict(ensemble=_pwc_prior(c)), arbitrary_index_ok=True, model_arg="ensemble")
 add("CoreSet", P.CoreSet, lambda s, ml=NAN: P.CoreSet(missing_label=ml, random_state=s), kind="both",
     independent=True, perm=True)
 add("TypiClust", P.TypiClust, lambda s, ml=NAN: P.TypiClust(missing_label=ml, random_state=s), kind="both",
